@@ -401,6 +401,10 @@ def run(ctx, report):
     compose_fold_rule(R6, ea, ec)
     mem_read_fold_rule(R6, ea, methods)
 
+    # ---------------------------------------------------------------- D9 the memory model works on addresses of one width
+    R9 = report.rule('C06.D9', 'the memory model adds 32-bit constants to cell addresses: every address that enters it (read, store) is widened to 32 bits first', floor=3)
+    addr_width_rule(R9, ea, methods)
+
     # ---------------------------------------------------------------- D7 writer's and reader's key of a memory cell agree
     R7 = report.rule('C06.D7', 'memory cells are stored under the (simplified) address they are looked up with', floor=2)
     em = methods.get('eval_ExprMem')
@@ -408,7 +412,17 @@ def run(ctx, report):
         raise AnalysisError('eval_abs.eval_ExprMem not found')
     # reader: the address eval_ExprMem looks up is simplified
     a_val = [n for n in walk_no_nested(em) if isinstance(n, ast.Assign) and u(n.targets[0]) == 'a_val']
-    reader_simplified = bool(a_val) and all(isinstance(n.value, ast.Call) and u(n.value.func) == 'expr_simp' for n in a_val) \
+    def keeps_simplified(v):
+        """expr_simp(..), or self.<method>(a_val) where the method returns its argument or an expr_simp(..) (the address widening of D9)"""
+        if isinstance(v, ast.Call) and u(v.func) == 'expr_simp':
+            return True
+        if isinstance(v, ast.Call) and isinstance(v.func, ast.Attribute) and u(v.func.value) == 'self' and v.func.attr in methods and len(v.args) == 1 and u(v.args[0]) == 'a_val':
+            f_ = methods[v.func.attr]
+            p0 = f_.args.args[1].arg if len(f_.args.args) > 1 else None
+            rets = [r for r in walk_no_nested(f_) if isinstance(r, ast.Return) and r.value is not None]
+            return bool(rets) and all((isinstance(r.value, ast.Name) and r.value.id == p0) or (isinstance(r.value, ast.Call) and u(r.value.func) == 'expr_simp') for r in rets)
+        return False
+    reader_simplified = bool(a_val) and all(keeps_simplified(n.value) for n in a_val) \
         and any('a_val in self.pool.pool_mem' in u(n) for n in walk_no_nested(em) if isinstance(n, ast.If))
     if not reader_simplified:
         raise AnalysisError('eval_ExprMem no longer looks memory cells up by expr_simp(address) in pool_mem: rule C06.D7 has to be re-read')
@@ -985,6 +999,51 @@ def mem_read_fold_rule(R, ea, methods):
                                                                                                               hex(want) if want is not None else 'not a constant'), where(ea, helper))
 
 
+def addr_width_rule(R, ea, methods):
+    """get_mem_overlapping, find_mem_by_addr, substract_mems and the read assembly compute neighbouring addresses as <address> + ExprInt(uint32(k)) /
+    ExprInt32(k).  The lifter gives a memory operand under the 16-bit address size a 16-bit address (bx+si, the string registers si/di): such an address
+    must be widened (zero extension, as the segment arithmetic of IA-32 does) where it enters the memory model - eval_ExprMem for reads, get_instr_mod for
+    stores - or every `mov al, [bx+si]` ends in `diff size!`."""
+    fixed = []
+    for name, fn in sorted(methods.items()):
+        for n in walk_no_nested(fn):
+            if isinstance(n, ast.Call) and u(n.func) in ('ExprInt32',) or (isinstance(n, ast.Call) and u(n.func) == 'ExprInt' and n.args and isinstance(n.args[0], ast.Call)
+                                                                           and u(n.args[0].func) == 'uint32'):
+                p_ = parent(n)
+                is_add = (isinstance(p_, ast.BinOp) and isinstance(p_.op, (ast.Add, ast.Sub))) or \
+                    (isinstance(p_, ast.Call) and u(p_.func) == 'ExprOp' and p_.args and isinstance(p_.args[0], ast.Constant) and p_.args[0].value in ('+', '-'))
+                if is_add and any(isinstance(x, ast.Attribute) and x.attr == 'arg' or isinstance(x, ast.Name) and x.id in ('a_val', 'ptr') for x in ast.walk(p_)):
+                    fixed.append((name, n))
+    if not fixed:
+        R.ok('memory model: address arithmetic', sample='no 32-bit constant is added to a cell address')
+        return
+    R.ok('memory model: address arithmetic', sample='%d additions of a 32-bit constant to a cell address (%s)' % (len(fixed), ', '.join(sorted(set(f for f, _ in fixed)))))
+    # wideners: methods / functions that pad a 16-bit expression to 32 bits
+    wideners = set()
+    for name, fn in list(methods.items()) + list(ea.funcs.items()):
+        txt = u(fn)
+        if 'ExprCompose' in txt and 'get_size()' in txt and any(isinstance(c, ast.Constant) and c.value == 16 for c in ast.walk(fn)) \
+                and any(isinstance(c, ast.Constant) and c.value == 32 for c in ast.walk(fn)) and len(fn.body) <= 12:
+            wideners.add(name)
+    for entry, var, src_attr in (('eval_ExprMem', 'a_val', 'arg'), ('get_instr_mod', 'a', 'dst.arg')):
+        fn = methods.get(entry)
+        if fn is None:
+            raise AnalysisError('eval_abs.%s not found' % entry)
+        cells = [n for n in walk_no_nested(fn) if isinstance(n, ast.Call) and u(n.func) == 'ExprMem' and n.args and u(n.args[0]) == var]
+        if not cells:
+            raise AnalysisError('%s no longer builds ExprMem(%s, ..)' % (entry, var))
+        first_cell = min(c.lineno for c in cells)
+        widened = [n for n in walk_no_nested(fn) if isinstance(n, ast.Assign) and len(n.targets) == 1 and u(n.targets[0]) == var and n.lineno < first_cell
+                   and any(isinstance(c, ast.Call) and (u(c.func).split('.')[-1] in wideners) for c in ast.walk(n.value))]
+        inst = '%s: address of the cell' % entry
+        if widened:
+            R.ok(inst, sample='%s widens the evaluated address (%s) before it builds the cell' % (entry, norm(widened[0])))
+        else:
+            R.violation(inst, 'addr-width:%s' % entry, '%s builds the cell ExprMem(%s, ..) from the evaluated address as it is; under the 16-bit address size the lifter gives a 16-bit '
+                        'address, and the memory model adds 32-bit constants to it (%s): ValueError(diff size!) instead of a value' % (entry, var, ', '.join(sorted(set(f for f, _ in fixed)))),
+                        where(ea, cells[0]), witness="emulating 67 8a 00 (mov al, [bx+si]) with ebx = 0x1000, esi = 0x20 raises ValueError('diff size! (0x1020+0xFFFFFFF9) 16 32')")
+
+
 MUTANTS = [
     ('mem-read-not-folded', 'miasmx/expression/expression_eval_abstract.py', "                    if ee is not None:\n                        # every piece is a constant: so is the cell\n                        return ee\n", "", 'C06.D6'),
     ('const-compose-no-slice-shift', 'miasmx/expression/expression_eval_abstract.py', "                v = int(x.arg.arg) >> x.start\n", "                v = int(x.arg.arg)\n", 'C06.D6'),
@@ -1022,4 +1081,6 @@ MUTANTS = [
     ('compose-fw-shift', 'miasmx/expression/expression_eval_abstract.py', "            if isinstance(x, ExprInt):\n                return int(x.arg)\n            if isinstance(x, ExprSlice)", "            if isinstance(x, ExprInt):\n                return x.arg\n            if isinstance(x, ExprSlice)", 'C06.D6'),
     ('compose-cond-noshift', 'miasmx/expression/expression_eval_abstract.py', "                    mysrc1 = (int(a.src1.arg)&mask)<<start\n", "                    mysrc1 = (int(a.src1.arg)&mask)\n", 'C06.D6'),
     ('no-slice-eval', 'miasmx/expression/expression_eval_abstract.py', "                      ExprSlice: self.eval_ExprSlice,\n", "", 'C06.D4'),
+    ('read-addr-not-widened', 'miasmx/expression/expression_eval_abstract.py', "        a_val = self.mem_addr(a_val)\n", "", 'C06.D9'),
+    ('store-addr-not-widened', 'miasmx/expression/expression_eval_abstract.py', "                a = self.mem_addr(expr_simp(a))", "                a = expr_simp(a)", 'C06.D9'),
 ]
